@@ -25,6 +25,7 @@ type ordEval struct {
 	w       *World
 	cs      ordCase
 	classOf func(v ssa.Value, fr *ordFrame) (side string, field string, ok bool)
+	extra   func(v ssa.Value, fr *ordFrame) (val bool, ok bool) // atoms outside the ordering domain (e.g. nil tests fixed by the case)
 	steps   int
 }
 
@@ -96,6 +97,11 @@ func (e *ordEval) evalBool(v ssa.Value, fr *ordFrame, pred *ssa.BasicBlock) (boo
 				return cmpBySign(flipOp(x.Op), e.cs.oldSign[rf]), ""
 			}
 		}
+		if e.extra != nil {
+			if val, ok := e.extra(v, fr); ok {
+				return val, ""
+			}
+		}
 		return false, "comparison outside the abstract domain: " + e.w.expr(v)
 	case *ssa.Call:
 		if h := x.Call.StaticCallee(); h != nil && h.Blocks != nil {
@@ -114,6 +120,11 @@ func (e *ordEval) evalBool(v ssa.Value, fr *ordFrame, pred *ssa.BasicBlock) (boo
 				}
 				return false, "helper " + h.Name() + ": " + out.why
 			}
+		}
+	}
+	if e.extra != nil {
+		if val, ok := e.extra(v, fr); ok {
+			return val, ""
 		}
 	}
 	return false, "value outside the abstract domain: " + e.w.expr(v)
